@@ -131,9 +131,17 @@ def attribute(world, q, steps, f):
     return sigs
 
 
+def current_kf(chk):
+    """entries by id; a proposal (kf_proposed_C08.json, loaded after known_findings.json) overrides the merged entry"""
+    byid = {}
+    for k in chk.kf:
+        byid[k['id']] = k
+    return list(byid.values())
+
+
 def classify(chk, f):
     """a failure is covered iff some alternative signature consists only of open known findings"""
-    known = {k['sig']: k for k in chk.kf if k.get('status') == 'open'}
+    known = {k['sig']: k for k in current_kf(chk) if k.get('status') == 'open' and k.get('sig')}
     f['attributed'] = None
     for alt in f.get('sigs', []):
         parts = alt.split('+')
@@ -143,7 +151,8 @@ def classify(chk, f):
                 known[p]['_reproduced'] = True
             break
     f['class'] = '|'.join(f.get('sigs', [])) or 'unattributed:' + f['query']['kind']
-    chk.classify(f, lambda k, ff: k.get('sig') is not None and k['sig'] == ff['attributed'])
+    cur = {id(k) for k in current_kf(chk)}
+    chk.classify(f, lambda k, ff: id(k) in cur and k.get('sig') is not None and k['sig'] == ff['attributed'])
 
 
 def clean(f):
@@ -425,7 +434,7 @@ def replay_kf(chk, world):
     """every open known finding's witness must still fail, with the same attribution; the witness of a FIXED finding is
     replayed as a regression case: if it fails again it is classified like any other failure (its class is not open any
     more, so that is a VIOLATION)"""
-    for k in chk.kf:
+    for k in current_kf(chk):
         if k.get('status') not in ('open', 'fixed'):
             continue
         wit = k['witness']
